@@ -263,7 +263,7 @@ Proof.
 Qed.
 
 (* the same at the level of NumpyTensorSpace._lincomb: regime chosen by the regenerated dispatch *)
-Lemma lincomb_impl_poison (fl bdt : bool) (f1 f2 fo : bool * bool) (a b : T) (i1 i2 io : nat)
+Lemma lincomb_impl_poison (fl : bool) (bdt : dtinfo) (f1 f2 fo : bool * bool) (a b : T) (i1 i2 io : nat)
       (s : store (option T)) (x1 x2 : list T) :
   s i1 = map Some x1 -> s i2 = map Some x2 ->
   length x1 = length x2 -> length (s io) = length x1 ->
